@@ -216,7 +216,7 @@ def run(ctx):
     for it in range(int(30 * B)):
         n = rng.randint(1, 5)
         do(ctx, 'density', [gen.rtableau(rng, ctx.model, n), rng.choice(['np', 'torch'])], nontrivial=('dm', it))
-    for k, n in [(8, 8), (9, 9), (9, 10), (10, 11), (12, 12)]:
+    for k, n in [(8, 8), (9, 9), (9, 10), (10, 11), (12, 12), (1, 63), (2, 64), (3, 65)]:
         for be in ('np', 'torch'):
             do(ctx, 'density', [gen.rtableau(rng, ctx.model, n, r=n - k), be], nontrivial=('dml', be, k, n))
     # LARGE registers: byte, word and cache-line boundaries of every packed or vectorised representation (8, 9, 16, 17, 33, 64, 65 qubits); model correspondence only
